@@ -384,6 +384,16 @@ UNITS['U28k'] = dict(
                  'the kernels behind the nodes are U10 (merge_deduplicate*, partition, subpartition are partly covered there) and U09m'],
     not_covered=['more than 4 group-by columns', 'key columns of different types on the two sides (casts)', 'the single-key and no-key branches', 'the ORDER BY merge branch of combine'])
 
+UNITS['U30k'] = dict(
+    kind='kani', crate='kani/U30', timeout_s=600, mem_gb=8,
+    title='partition_segment.rs: the hand-written CodecOp <-> Cap\'n Proto union tables of PartitionSegment::serialize / deserialize (slices) and the EncodingType tables agree: every op reads back as written (complete: every variant, every field value)',
+    harnesses=[dict(name='proofs::codec_op_roundtrip', clause='de_op(ser_op(op)) == op for every CodecOp except Unknown (which serialize refuses)', fn='PartitionSegment::serialize[slice] / deserialize[slice]'),
+               dict(name='proofs::encoding_type_roundtrip', clause='deserialize_type(encoding_type_to_capnp(t)) == t for the eight storable types', fn='deserialize_type / encoding_type_to_capnp'),
+               dict(name='proofs::vx_canary', expect_fail=True)],
+    assumptions=['A-capnp: the generated builder / reader of the CodecOp union is replaced by a stand-in with the documented union semantics (set_x stores, init_x zero-initialises member x and replaces the content, reborrow aliases, which()/getters return what is stored); packing, segments and the message framing are not modelled',
+                 'usize == u64 (64-bit target) for the `as u64` / `as usize` casts of section numbers and lengths'],
+    not_covered=['data sections, column name / length / range', 'the WAL segment and catalogue schemas', 'serialize_packed / read_message'])
+
 UNITS['U24k'] = dict(
     kind='kani', crate='kani/U24', timeout_s=600, mem_gb=12, jobs=2,
     title='BOUNDED (names <= 2 ASCII characters): storage.rs sanitize_table_name - cleaning steps after lower-casing (slice) and the verbatim-or-digest decision (expression slice)',
@@ -394,11 +404,11 @@ UNITS['U24k'] = dict(
     not_covered=['names longer than 2 characters, non-ASCII names', 'the `-<name>-<digest>` formatting', 'truncation to 189 bytes'])
 
 PROPS = {
-    'C14': dict(level='proof', units=['U14v', 'U14b'],
-                level_text='Verus proof that the envelope check accepts a file iff it is intact (for all byte strings: truncated, extended, flipped version / length / payload under A-sha), and that store writes exactly the envelope',
-                level_note='the Cap\'n Proto payload encode/decode (segments, catalogue) is not covered: the "decodes to exactly the logical content" half of C14 is decided for the envelope only',
+    'C14': dict(level='proof', units=['U14v', 'U14b', 'U30k', 'U18k'],
+                level_text='Verus proof that the envelope check accepts a file iff it is intact (for all byte strings: truncated, extended, flipped version / length / payload under A-sha), and that store writes exactly the envelope; complete Kani proofs that the codec-op and element-type tables of the partition file (de)serialiser agree and that the catalogue cursor reads back as written',
+                level_note='the "decodes to exactly the logical content" half of C14 is decided for the envelope, the partition file\'s codec description and the catalogue cursor only; data sections, column metadata, WAL segments and the Cap\'n Proto transport itself (A-capnp) are not covered',
                 technique='contract-based deductive verification (Verus; Kani complete for the byte-conversion assumption) of extracted functions',
-                assumptions=[], not_covered=['capnp encode/decode of WAL segments, partition segments and the catalogue', 'FileBlobWriter']),
+                assumptions=[], not_covered=['capnp encode/decode of WAL segments, data sections and the catalogue partitions', 'FileBlobWriter']),
     'C12': dict(level='other', units=['U13k', 'U21k', 'U19', 'U27k'],
                 level_text='complete Kani proofs of the LIMIT/OFFSET row-window arithmetic (never more rows than LIMIT, no panic for any limit/offset/length); bounded Kani check that LIMIT/OFFSET literals give an error value instead of a panic; Verus / Kani: the NULL column standing in for an unknown column has exactly as many rows as the filter keeps (BatchResult::validate would otherwise panic a worker)',
                 level_note='narrow: sqlparser, convert_to_native_expr, result assembly (BatchResult::validate) and channel delivery are not covered',
